@@ -30,6 +30,7 @@ RULE = ('initial pools: {cell from a Builder (7 unaligned bits, 2 refs) + a leaf
         'containers). BFS to the depth bound with pool cap 6; a state = canonical form of the pool; every transition replays the whole history '
         'on fresh objects. non-trivial = history of length >= 2; states = distinct canonical pools; transitions = history replays (arrivals); '
         'traces = arrivals whose real pool, event outcomes and observer battery were compared with the reference pool / memo')
+RULE += ' Fifth session: state merge key = canonical pool + set of non-mutating calls made per object; observation twice on first arrival, once afterwards; parse battery additions: VM stack with slice windows narrower than their cells, one account read with and without anycast info (earlier value re-inspected), every parse input compared with a snapshot taken before anything was parsed.'
 LEVEL_TEXT = ('Explicit-state model checking of the real objects: all operation histories up to the depth bound over a pool of cells, slices, builders '
               'and returned bit arrays derived from one another are executed on fresh objects; after every step the whole pool must equal a purely '
               'functional reference pool (immutability + isolation), and an observer battery must be a function of the canonical state alone '
